@@ -22,8 +22,11 @@ import (
 // ---------------------------------------------------------------- end-to-end stream
 
 type E2EOp struct {
-	K  string  `json:"k"` // batch | serve | sync | drop | read
+	K  string  `json:"k"` // batch | batchserve | serve | sync | drop | read
 	Ts []int64 `json:"ts,omitempty"`
+	// drop: the restarted server flushes chunk writers after a minute instead of 5 ms, and the harness flushes them itself
+	// (chunk.Sync) after every write: what batchserve needs to serve the rebuilder while a batch is still unflushed
+	Slow bool `json:"slow,omitempty"`
 	O1 *int64  `json:"o1,omitempty"`
 	O2 *int64  `json:"o2,omitempty"`
 	// read: write the range as a single bound without brackets is not used; both bounds optional
@@ -201,6 +204,21 @@ func genE2E(r *Rng, i int) *E2ECase {
 		if ec.Stream == "dropwrite" && !dropped && len(all) >= total/2 {
 			// the index files are lost and the next thing that happens is a write; queries before the rebuild runs
 			dropped = true
+			if i%16 >= 8 {
+				// ... and the write reports the index corrupted (the chunk is new to the index but the notification is not
+				// its first), so the rebuilder runs at once: it scans the chunk while the batch is still in the chunk
+				// writer's buffer. Then ranges over exactly the new records.
+				ec.Ops = append(ec.Ops, E2EOp{K: "drop", Slow: true})
+				cur += int64(r.Range(1, 50))
+				tss := tsProcess(r, kind, r.PickInt(1, 10, 50, 251), &cur)
+				ec.Ops = append(ec.Ops, E2EOp{K: "batchserve", Ts: tss})
+				all = append(all, tss...)
+				mn, mx := minmax(tss)
+				ec.Ops = append(ec.Ops, E2EOp{K: "read", O1: i64p(mn), O2: i64p(mx)}, E2EOp{K: "read", O1: i64p(mn)},
+					E2EOp{K: "read", O1: i64p(tss[len(tss)/2]), O2: i64p(tss[len(tss)/2])})
+				ec.Ops = append(ec.Ops, genQueries(r, all, 2, ec.Stream)...)
+				continue
+			}
 			ec.Ops = append(ec.Ops, E2EOp{K: "drop"})
 			tss := tsProcess(r, kind, r.PickInt(1, 10, 251), &cur)
 			ec.Ops = append(ec.Ops, E2EOp{K: "batch", Ts: tss})
@@ -329,6 +347,14 @@ func corpus() []Replay {
 			{K: "read", O1: i64p(ts[100]), O2: i64p(ts[100])}, {K: "serve"},
 			{K: "read", O1: i64p(ts[245]), O2: i64p(ts[255])}, {K: "read", O2: i64p(ts[251])}, {K: "read", O1: i64p(ts[249] - 5)}}}})
 	}
+	// (i) the healing side of (f): 300 x 100, the index files are lost, and the first thing after the restart is a write
+	// of 10 x 200: the write finds the chunk new to the index with a notification that is not its first, reports the index
+	// corrupted, and the rebuilder scans the chunk while the 10 records are still in the chunk writer's buffer. The scan's
+	// hull [100,100] must WIDEN the hull [200,200] the write has set, not replace it: RANGE ["200":"200"] has 10 events.
+	out = append(out, Replay{Kind: "e2e", E2E: &E2ECase{Stream: "dropwrite", Ops: []E2EOp{
+		{K: "batch", Ts: rep(100, 300)}, {K: "drop", Slow: true}, {K: "batchserve", Ts: rep(200, 10)},
+		{K: "read", O1: i64p(200), O2: i64p(200)}, {K: "read", O1: i64p(150), O2: i64p(250)}, {K: "read", O1: i64p(100), O2: i64p(150)},
+		{K: "batch", Ts: rep(300, 5)}, {K: "read", O1: i64p(200), O2: i64p(300)}}}})
 	return out
 }
 
@@ -341,10 +367,14 @@ type e2eRun struct {
 	cnts  []int      // records per chunk
 	all   []int64    // timestamps in stored order
 	total int
+	slow  bool // the chunk writers flush on chunk.Sync only (see E2EOp.Slow)
 }
 
 func (e *e2eRun) start(chunkRecs int) error {
 	o := ServerOpts{Dir: e.dir, NoRPC: true, WriteFlushMs: 5}
+	if e.slow {
+		o.WriteFlushMs = 60000
+	}
 	if chunkRecs > 0 {
 		o.MaxChunkSize = int64(chunkRecs * recBytes)
 	}
@@ -396,14 +426,36 @@ func seqOf(msg string) (int, error) {
 }
 
 // writeBatch writes the batch through partition.Service.Write, waits until it is readable and returns
-// how the journal split it into chunks: (ordinal, count) per chunk touched
-func (e *e2eRun) writeBatch(tss []int64) ([][2]int, error) {
+// how the journal split it into chunks: (ordinal, count) per chunk touched.
+// With serveFirst (after a Slow drop) the rebuilder serves its queue after Service.Write has returned (onWriteCIndex has
+// accounted for the batch) and BEFORE the chunk writer flushes it; `seen` is then the number of readable records per
+// chunk ordinal at that moment (what the rebuild scan can see) and `served` the chunks served.
+func (e *e2eRun) writeBatch(tss []int64, serveFirst bool) (segs [][2]int, seen [][2]int, served []chunk.Id, err error) {
 	it := &sliceIt{}
 	for k, ts := range tss {
 		it.evs = append(it.evs, model.LogEvent{Timestamp: ts, Msg: []byte(msgOf(e.total + k))})
 	}
 	if err := e.srv.Partitions.Write(e.ctx, e2eTags, it, true); err != nil {
-		return nil, fmt.Errorf("write: %v", err)
+		return nil, nil, nil, fmt.Errorf("write: %v", err)
+	}
+	if serveFirst {
+		cks, err := e.chunks()
+		if err != nil {
+			return nil, nil, nil, err
+		}
+		for i, c := range cks {
+			seen = append(seen, [2]int{i + 1, int(c.Count())})
+		}
+		served = e.srv.Partitions.VC02ServeQueued()
+	}
+	if e.slow {
+		cks, err := e.chunks()
+		if err != nil {
+			return nil, nil, nil, err
+		}
+		for _, c := range cks {
+			c.Sync()
+		}
 	}
 	want := e.total + len(tss)
 	var cks chunk.Chunks
@@ -420,13 +472,12 @@ func (e *e2eRun) writeBatch(tss []int64) ([][2]int, error) {
 		return n == want
 	})
 	if !ok {
-		return nil, fmt.Errorf("the batch of %d events did not become readable within 30s", len(tss))
+		return nil, nil, nil, fmt.Errorf("the batch of %d events did not become readable within 30s", len(tss))
 	}
-	var segs [][2]int
 	for i, c := range cks {
 		if i < len(e.cids) {
 			if e.cids[i] != c.Id() {
-				return nil, fmt.Errorf("chunk list changed unexpectedly")
+				return nil, nil, nil, fmt.Errorf("chunk list changed unexpectedly")
 			}
 			if d := int(c.Count()) - e.cnts[i]; d > 0 {
 				segs = append(segs, [2]int{i + 1, d})
@@ -442,7 +493,7 @@ func (e *e2eRun) writeBatch(tss []int64) ([][2]int, error) {
 	}
 	e.all = append(e.all, tss...)
 	e.total = want
-	return segs, nil
+	return segs, seen, served, nil
 }
 
 // view: per chunk the hull and the index records the TsIndexer reports; plus the rebuilder queue
@@ -498,6 +549,15 @@ func (e *e2eRun) query(q string) ([]evt, error) {
 	return out, nil
 }
 
+func seenOf(seen [][2]int, o, dflt int) int {
+	for _, sn := range seen {
+		if sn[0] == o {
+			return sn[1]
+		}
+	}
+	return dflt
+}
+
 func optZ(p *int64) string {
 	if p == nil {
 		return GNone
@@ -537,6 +597,8 @@ func runE2E(rp Replay) (*Case, error) {
 	syncedSinceDrop := true
 	// chunks (by ordinal) whose index was built by the rebuilder scanning the chunk and that were not written to since
 	rebuiltClean := map[int]bool{}
+	// chunks (by ordinal) the rebuilder served while their last written records were not flushed yet
+	servedUnflushed := map[int]bool{}
 	// the timestamps of chunk ordinal o in stored order
 	chunkData := func(o int) []int64 {
 		lo := 0
@@ -573,10 +635,11 @@ func runE2E(rp Replay) (*Case, error) {
 		var gop string
 		gEvents, gWindows := "[]", GNone
 		switch op.K {
-		case "batch":
+		case "batch", "batchserve":
 			if len(op.Ts) == 0 {
 				continue
 			}
+			serveFirst := op.K == "batchserve" && e.slow
 			for k, ts := range op.Ts {
 				if (k > 0 && ts < op.Ts[k-1]) || (k == 0 && len(e.all) > 0 && ts < e.all[len(e.all)-1]) {
 					sortedAll = false
@@ -588,7 +651,7 @@ func runE2E(rp Replay) (*Case, error) {
 			if !syncedSinceDrop {
 				pendingDropWrite = true
 			}
-			segs, err := e.writeBatch(op.Ts)
+			segs, seen, served, err := e.writeBatch(op.Ts, serveFirst)
 			if err != nil {
 				return nil, err
 			}
@@ -605,6 +668,42 @@ func runE2E(rp Replay) (*Case, error) {
 				return nil, fmt.Errorf("batch of %d split into %v", len(op.Ts), segs)
 			}
 			gop = GApp("EBatch", GList(gs))
+			if serveFirst {
+				var gseen []string
+				for _, sn := range seen {
+					gseen = append(gseen, GPair(GZ(int64(sn[0])), GZ(int64(sn[1]))))
+				}
+				gop = GApp("EBatchServe", GList(gs), GList(gseen))
+				tags = append(tags, "e2e-serve-before-flush")
+				// The rebuilder has served the chunks the write reported as corrupted, scanning only what was readable. The
+				// hull of a served chunk must still contain everything the writes have announced for it (oracle on the
+				// index itself; a failing RANGE query of the same case is reported instead).
+				for _, c := range served {
+					if o := e.ordinal(c); o > 0 {
+						partial := false
+						for _, sn := range seen {
+							if sn[0] == int(o) && sn[1] < e.cnts[o-1] {
+								partial = true
+							}
+						}
+						if partial {
+							tags = append(tags, "e2e-partial-scan")
+							servedUnflushed[int(o)] = true
+						}
+						data := chunkData(int(o))
+						if ri, err := e.srv.TsIndexer.GetRecordsInfo(e.src, c); err == nil && len(data) > 0 && idxViol == nil {
+							if mn, mx := minmax(data); ri.MinTs > mn || ri.MaxTs < mx {
+								idxViol = &Violation{Class: "rebuilt-index-hull", Detail: fmt.Sprintf("chunk %d rebuilt while its last %d of %d records were not flushed yet: hull [%d,%d] does not contain the written timestamps [%d,%d]", o, e.cnts[o-1]-seenOf(seen, int(o), e.cnts[o-1]), e.cnts[o-1], ri.MinTs, ri.MaxTs, mn, mx)}
+							}
+						}
+					}
+				}
+				if len(served) > 0 {
+					// the transient of the recorded finding (hull = the first batch after the index loss) ends when the
+					// rebuilder has served the chunk
+					pendingDropWrite = false
+				}
+			}
 			nbatches++
 		case "serve":
 			if e.src != "" {
@@ -664,11 +763,13 @@ func runE2E(rp Replay) (*Case, error) {
 			if err := os.RemoveAll(filepath.Join(e.dir, "cindex")); err != nil {
 				return nil, err
 			}
+			e.slow = op.Slow
 			if err := e.start(ec.ChunkRecs); err != nil {
 				return nil, fmt.Errorf("restart: %v", err)
 			}
 			syncedSinceDrop = false
 			rebuiltClean = map[int]bool{}
+			servedUnflushed = map[int]bool{}
 			gop = "EDrop"
 		case "read":
 			if e.src == "" {
@@ -832,12 +933,28 @@ func runE2E(rp Replay) (*Case, error) {
 						}
 					}
 				}
+				lostServedUnflushed := false
+				{
+					st := make([]int, len(e.cnts)+1)
+					for k, c := range e.cnts {
+						st[k+1] = st[k] + c
+					}
+					for _, ev := range missing {
+						if servedUnflushed[sort.Search(len(e.cnts), func(k int) bool { return st[k+1] > ev.seq })+1] {
+							lostServedUnflushed = true
+						}
+					}
+				}
 				cls := "range-incomplete"
 				switch {
 				case !sortedAll:
 					cls = "range-incomplete-non-monotone-timestamps"
 				case pendingDropWrite:
 					cls = "range-incomplete-write-after-index-loss-before-rebuild"
+				case lostServedUnflushed:
+					// the transient of the recorded class above ends when the rebuilder has served the chunk, also when its
+					// scan could not see the records of the write that asked for it
+					cls = "range-incomplete-after-rebuild-of-unflushed-write"
 				case len(rest) == 0 && lostNeg:
 					cls = "range-incomplete-open-lower-bound-negative-ts"
 				case zeroFirst && allZero:
